@@ -458,3 +458,112 @@ def ifchain(f, subjects=None):
     g = dataclasses.replace(f)
     g.node = node
     return g
+
+
+def strip_walrus(e: ast.AST) -> ast.AST:
+    """`(x := f()) is None` -> `x is None` (what the condition says about x afterwards)"""
+
+    class T(ast.NodeTransformer):
+        def visit_NamedExpr(self, n):
+            return ast.copy_location(ast.Name(n.target.id, ast.Load()), n)
+
+    return T().visit(copy.deepcopy(e))
+
+
+def sink_tail(f, is_chain_test):
+    """Copy of Func `f` in which the statements that follow an if / elif / else chain (whose first test satisfies
+    `is_chain_test`) up to the end of its block are copied into every branch that can complete normally:
+        if c1: A  elif c2: B  else: raise;  T      ==>      if c1: A; T  elif c2: B; T  else: raise
+    so that a rule that inspects each branch sees the shared tail as part of it."""
+    node = copy.deepcopy(f.node)
+    changed = False
+
+    def branches(s):
+        out = []
+        cur = s
+        while True:
+            out.append((cur, "body"))
+            if len(cur.orelse) == 1 and isinstance(cur.orelse[0], ast.If):
+                cur = cur.orelse[0]
+                continue
+            out.append((cur, "orelse"))
+            return out
+
+    def rewrite(blk):
+        nonlocal changed
+        for i, s in enumerate(blk):
+            if isinstance(s, ast.If) and is_chain_test(s.test) and i + 1 < len(blk):
+                tail = blk[i + 1:]
+                for owner, fld in branches(s):
+                    b = getattr(owner, fld)
+                    if fld == "orelse" and not b:
+                        owner.orelse = copy.deepcopy(tail)
+                    elif not _ends(b):
+                        b.extend(copy.deepcopy(tail))
+                del blk[i + 1:]
+                changed = True
+            for fld in ("body", "orelse", "finalbody"):
+                b = getattr(s, fld, None)
+                if isinstance(b, list) and b and isinstance(b[0], ast.stmt) and not isinstance(s, (ast.FunctionDef, ast.AsyncFunctionDef, ast.ClassDef)):
+                    rewrite(b)
+            if isinstance(s, ast.Try):
+                for h in s.handlers:
+                    rewrite(h.body)
+            if isinstance(s, ast.Match):
+                for c in s.cases:
+                    rewrite(c.body)
+            if changed and i + 1 >= len(blk):
+                break
+
+    rewrite(node.body)
+    if not changed:
+        return f
+    ast.fix_missing_locations(node)
+    g = dataclasses.replace(f)
+    g.node = node
+    return g
+
+
+def dominating_def(fn: ast.AST, site: ast.AST, name: str):
+    """The value of the plain assignment `name = <value>` that dominates `site` syntactically: the nearest earlier
+    statement, in the block of `site` or an enclosing block, that binds `name`.  None when that binding is not a plain
+    assignment or hides inside a compound statement (then the value is not determined by position alone)."""
+
+    def binds(s):
+        for n in ast.walk(s):
+            if isinstance(n, ast.Name) and n.id == name and isinstance(n.ctx, (ast.Store, ast.Del)):
+                return True
+        return False
+
+    def search(blk):
+        for i, s in enumerate(blk):
+            if any(x is site for x in ast.walk(s)):
+                r = None
+                for fld in ("body", "orelse", "finalbody"):
+                    b = getattr(s, fld, None)
+                    if isinstance(b, list) and b and isinstance(b[0], ast.stmt) and any(x is site for y in b for x in ast.walk(y)):
+                        r = search(b)
+                if isinstance(s, ast.Try):
+                    for h in s.handlers:
+                        if any(x is site for y in h.body for x in ast.walk(y)):
+                            r = search(h.body)
+                if isinstance(s, ast.Match):
+                    for c in s.cases:
+                        if any(x is site for y in c.body for x in ast.walk(y)):
+                            r = search(c.body)
+                if r is not None:
+                    return r
+                if isinstance(s, (ast.For, ast.While)) and binds(s):
+                    return ("unknown",)
+                for prev in reversed(blk[:i]):
+                    if binds(prev):
+                        if isinstance(prev, ast.Assign) and len(prev.targets) == 1 and isinstance(prev.targets[0], ast.Name):
+                            return ("value", prev.value)
+                        return ("unknown",)
+                return None
+        return None
+
+    r = search(getattr(fn, "body", []))
+    if r is not None and r[0] == "value":
+        return r[1]
+    return None
